@@ -51,6 +51,7 @@ WRAPPERS = [
     ("set-rec", "rec { a = §; }"), ("set-value-nl", "{\n  a =\n    §;\n}"),
     ("set-list", "{ a = [ (§) ]; }"), ("set-list-nl", "{\n  a = [\n    (§)\n  ];\n}"),
     ("call-arg", "f (§)"), ("call-arg-nl", "f\n  (§)"), ("call-fn", "(§) x"), ("call-2", "f a (§)"),
+    ("call-arg-nospace", "f(§)"), ("call-list-nospace", "f[(§)]"), ("select-nospace", "(§).a.b"),
     ("import", "import (§)"),
     ("select", "(§).a"), ("select-or", "x.a or (§)"), ("select-or-nl", "x.a\n  or (§)"),
     ("has-attr", "(§) ? a"), ("not", "!(§)"), ("neg", "-(§)"),
@@ -72,6 +73,8 @@ LEAF_POOL = [
     "[ 1 2 ]", "{ a = 1; }", "a.b", "a.b or c", "f x", "x: x", "{ }: 1", "{ a, ... }: a", "-1", "!a", "a ? b", "a + b",
     "a ++ b", "a // b", "a -> b", "if a then b else c", "with a; b", "assert a; b", "let a = 1; in a", "import ./x.nix",
     "{ inherit a; }", "{ inherit (a) b; }", "(a)", "[\n  1\n  2\n]", "{\n  a = 1;\n}", "a # c", "/* c */ a",
+    "[ /* a */ /* b */ c ]", "[ /* a */ /* b */ ]", "{ /* a */ /* b */ c = 1; }", "f /* a */ /* b */ x",
+    "( /* a */ /* b */ x )", "{ a, /* a */ /* b */ b }: a", "let /* a */ /* b */ v = 1; in v",
 ]
 
 # size- (not nesting-) parameterised families: n scales the length
